@@ -404,7 +404,7 @@ def scenario_strategy():
 
     @st.composite
     def case(draw):
-        kind = draw(st.sampled_from(["selfref-arg", "plain-and-paste", "comma-from-arg", "selfref-arg", "plain-and-paste", "name-as-arg"]))
+        kind = draw(st.sampled_from(["selfref-arg", "plain-and-paste", "comma-from-arg", "selfref-arg", "plain-and-paste", "name-as-arg", "variadic-later-arg"]))
         n1, n2 = draw(num), draw(num)
         tab = []
         if kind == "selfref-arg":
@@ -429,6 +429,17 @@ def scenario_strategy():
             tab.append(M("H", ["a"], draw(st.sampled_from([["a"], ["a", "w"]]))))
             tab.append(M("X", None, draw(st.sampled_from([["G"], ["H"], ["G", "(", n1, ")"]]))))
             inv = draw(st.sampled_from([["F", "(", "G", ",", n1, ")"], ["H", "(", "G", ")", "(", n2, ")"], ["H", "(", "X", ")", "(", n2, ")"], ["F", "(", "H", ",", "G", ")", "(", n1, ")"], ["F", "(", "X", ",", n2, ")"], ["H", "(", "H", ")", "(", "G", ")", "(", n1, ")"]]))
+        elif kind == "variadic-later-arg":
+            # second and later variadic arguments are pre-expanded like the first
+            vn = draw(st.sampled_from(["...", "rest..."]))
+            va = "__VA_ARGS__" if vn == "..." else "rest"
+            tab.append(M("F", draw(st.sampled_from([[], ["a"]])), draw(st.sampled_from([[va], ["(", va, ")"], ["G", "(", va, ")"], [va, "+", "0"]])), variadic=vn))
+            tab.append(M("G", [], [va], variadic=vn) if vn == "..." else M("G", ["a"], ["a"], variadic="..."))
+            tab.append(M("X", None, [n1]))
+            tab.append(M("H", ["a", "b"], ["b", "a"]))
+            later = draw(st.sampled_from([["F", "(", n2, ")"], ["X"], ["H", "(", n1, ",", n2, ")"], ["F", "(", n1, ",", "X", ")"], ["H"]]))
+            first = draw(st.sampled_from([[n1], ["X"], []]))
+            inv = ["F", "("] + first + [","] + later + draw(st.sampled_from([[], [",", "X"], [",", "H"]])) + [")"] + draw(st.sampled_from([[], ["(", n1, ",", n2, ")"]]))
         elif kind == "plain-and-paste":
             pieces = draw(st.lists(st.sampled_from([["a"], ["a", "##", "0"], ["a", "##", "_T"], ["#", "a"], ["+"], ["G", "(", "a", ")"], ["x", "##", "a"], ["a"]]), min_size=2, max_size=4))
             tab.append(M("F", ["a"], [t for pc in pieces for t in pc]))
